@@ -45,7 +45,7 @@ BOUNDS = {
     "thorough": "(a) depth 3 spine, all key pairs; (b) histories <=3, both builds",
 }
 OUTSIDE = "LiteralExpr nodes (never created by the operator API; they print like the literal they hold, so the rebuilt node is the plain literal); non-finite constants; string-valued keyword arguments of calls (the property quantifies numeric arguments); keys that are not str/int"
-REQUIRED_CLASSES = ["expr_roundtrip", "load_checked", "load_no_overwrite", "copy_checked", "copy_rebound", "followup"]
+REQUIRED_CLASSES = ["expr_roundtrip", "load_checked", "load_no_overwrite", "copy_checked", "copy_rebound", "followup", "source_observed_before_history"]
 PROFILE_CASES = 4
 TASKS_PER_CHILD = 50
 
@@ -249,6 +249,20 @@ def run_manager(ex, case):
         ops = [o for o in c03.list_ops(st.defs, locs)
                if o[0] in ("val", "expr", "unreg") or (o[0] == "isubref" and o[1] in st.defs)]
         op = ops[ex.choose(len(ops))]
+        # the source manager is dumped and copied from BEFORE the history goes on as well (an earlier dump /
+        # copy must not influence a later one)
+        try:
+            st.m.dump()
+            scratch = xd.Manager()
+            scratch.ref(U.copy_contents(st.d), "d")
+            scratch.ref(U.FContainer(st.g), "f")
+            scratch.copy_expr_from(st.m, "d")
+            note(ex, "source_observed_before_history")
+        except (Abort, Inconclusive):
+            raise
+        except Exception as e:
+            ex.fail(f"dump()/copy_expr_from of the source in the middle of its history raised {type(e).__name__}: {e}", {"history": list(st.hist)})
+            return
         st.apply(op)
     dump = st.m.dump()
     det = {"history": list(st.hist), "dump": [list(x) for x in dump]}
